@@ -34,8 +34,8 @@ TRUSTED_BASE = [
     "density -> graph: proved for every n — group level (density_to_graph_pair_state_partial) and Hilbert space (density_to_graph_project_and_remove: "
     "project_and_remove, modelled as projector / trace normalisation / partial trace on 2^n x 2^n complex matrices, maps |G><G| to the graph state of the induced "
     "pair; the trace of the projected matrix is 4/2^n, never 0) — and on exact 4x4 rational matrices (the two possible states entry by entry, negativity 0 resp. 1/2: "
-    "density_to_graph_pair_negativity, density_to_graph_edge_rule_partial); NOT proved: that the numpy code of project_and_remove / partial_trace / "
-    "bipartite_partial_transpose computes the modelled maps, uniqueness of the Jordan decomposition, float eigenvalues, purity test, closing np.allclose — "
+    "density_to_graph_pair_spectrum — eigenvalues as roots of the characteristic polynomial —, density_to_graph_edge_rule_partial); NOT proved: that the numpy "
+    "code of project_and_remove / partial_trace / bipartite_partial_transpose computes the modelled maps, float eigenvalues (eigh), purity test, closing np.allclose — "
     "compared numerically per input: project_and_remove and negativity of every pair of every graph on <= 5 vertices against the two proved states",
     "harness dense reference (n <= 5) and independent signed-group canonicaliser",
 ]
